@@ -252,6 +252,20 @@ def check(col: Collector, c: dict, gwy: str, reply_payload: str | None) -> None:
         elif res["labels"] not in (["reply"], ["echo"]):
             col.violation({"clause": "near-miss-taken-for-reply", "order": "reply-before-echo", **sigbase,
                            "kind": res["labels"][0] if res["labels"] else "?"}, rcase, f"{b['frame']!r} returned {res['frame']!r} labelled {res['labels']}")
+    # the fault log: for a slot beyond the end of the log the controller's proper reply IS the null entry, which carries index 00 whatever
+    # slot was asked for (the library documents this special case in WantRply): it must be taken as the reply to an RQ|0418 for any slot
+    if c["code"] == "0418" and c["verb"] == "RQ" and len(c["payload"]) == 6 and c["payload"][4:6] != "00" and c["dst"][:2] == "01":
+        b0 = dict(b, reply=mk("RP", c["dst"], gwy, "0418", NULL_0418), near=[n for n in b["near"] if n["kind"].startswith("echo-")])
+        col.case(classes=["0418-null-entry-for-other-slot"], n=0)
+        # (echo-then-reply only: the special case lives in the state that awaits the reply; a null entry that overtakes the echo is not
+        # recognised by the unchanged library either - it does not carry the request's context, so the statement does not demand it)
+        for how, r in (("echo-first", run_fsm(b0, wait=True)),):
+            res = r["res"]
+            if r["deadlock"]:
+                col.violation({"clause": "fsm-hang", **sigbase}, rcase, "FSM blocked")
+            elif res["outcome"] != "pkt" or (res["labels"] != ["reply"] and not (how == "reply-first" and res["labels"] == ["echo"])):
+                col.violation({"clause": "reply-not-recognised", "what": "null-entry", "order": how, **sigbase, "exc": res.get("exc")}, rcase,
+                              f"{b['frame']!r}: the null entry {b0['reply']!r} is not taken as the reply: {res.get('outcome')} {res.get('exc')}: {res.get('msg')} {res.get('labels')}")
     # (b) FSM level, echo only
     r = run_fsm(b, wait=False)
     res = r["res"]
